@@ -651,17 +651,139 @@ def chains(res, rng, groups, viol):
 
 
 # ----------------------------------------------------------------------------- 2-d chain (oracle only)
+def build_chain_2d(h, half, masses1, masses2, copula_name, method):
+    from c02_stepmodel import C02StepModel, measure_from_cell_masses
+    from rpylib.grid.spatial import CTMCUniformGrid
+    from rpylib.distribution import levycopula as LC
+    from rpylib.model.levycopulamodel import LevyCopulaModel
+    from rpylib.process.markovchain.markovchainlevycopula import MarkovChainLevyCopula
+    import warnings
+    grid = CTMCUniformGrid.create_from_fixed_nb_of_points(h=h, nb_of_points=2 * half, dimension=2)
+    m1 = C02StepModel(measure_from_cell_masses(grid.axes[0], half, masses1))
+    m2 = C02StepModel(measure_from_cell_masses(grid.axes[1], half, masses2))
+    copula = {"independent": LC.IndependentComponentsCopula, "dependent": LC.DependentComponentsCopula}[copula_name]()
+    with warnings.catch_warnings():
+        warnings.simplefilter("ignore")
+        proc = MarkovChainLevyCopula(LevyCopulaModel([m1, m2], copula), grid, method)
+    return proc, grid
+
+
 def chain_2d(res, rng, viol):
-    """independent Levy copula of two step margins on a small 2-d grid: INVERSION and BINARYSEARCHTREEADAPTED through the
-    factory; law against the cell masses of the model, history independence, tiny _max_storage."""
-    try:
-        from c02_stepmodel import C02StepModel, measure_from_cell_masses
-        from rpylib.grid.spatial import CTMCUniformGrid
-        from rpylib.process.markovchain.markovchainlevycopula import LevyCopulaMarkovChainProcess  # noqa
-    except Exception as e:  # noqa
-        res.notes.append(f"2-d chain not exercised: {type(e).__name__}: {e}")
-        return
-    res.notes.append("2-d chain: see c02 oracle (not built in this version)")
+    """2-d Levy copula chains (independent / completely dependent copula of two dyadic step margins) through the public
+    factory, INVERSION and BINARYSEARCHTREEADAPTED: implementation-only oracle (no Coq model).  Target: mass of the cell
+    of the chain's own model / intensity.  Law by integration of u -> state, no origin / out-of-grid / zero-probability
+    state, batch sample() against the single-uniform entry points, draw sequences in two orders (INVERSION also with a
+    tiny _max_storage)."""
+    import itertools
+    from rpylib.distribution.sampling import SamplingMethod as SM
+    tier = res.tier
+    shapes = [(0.5, 1), (0.5, 2), (0.25, 3)] if tier == "quick" else [(0.5, 1), (0.5, 2), (0.25, 3), (0.25, 4), (0.125, 6)]
+    tol = Fr(1, 10 ** 9)
+    for (h, half), copula_name in itertools.product(shapes, ("independent", "dependent")):
+        n = 2 * half + 1
+        tot = 1 << 8
+        m1 = _composition(rng, tot, n - 1, zero_frac=rng.choice([0.0, 0.3]))
+        m2 = _composition(rng, tot, n - 1, zero_frac=rng.choice([0.0, 0.3]))
+        masses1 = [Fr(v, tot) for v in m1[:half] + [0] + m1[half:]]
+        masses2 = [Fr(v, tot) for v in m2[:half] + [0] + m2[half:]]
+        res.bump("chain2d", f"{copula_name} {n}x{n}")
+        for method in (SM.INVERSION, SM.BINARYSEARCHTREEADAPTED):
+            name = method.name + "-2d"
+            ctx = dict(sampler=name, copula=copula_name, h=h, half=half, masses1=[str(m) for m in masses1], masses2=[str(m) for m in masses2])
+            try:
+                proc, grid = build_chain_2d(h, half, masses1, masses2, copula_name, method)
+            except Exception as e:  # noqa
+                viol(f"factory raises {type(e).__name__} for a 2-d chain with SamplingMethod.{method.name}", error=str(e)[:200], **ctx)
+                continue
+            s = proc.sampling
+            o = grid.origin_coordinate
+            lam = float(proc.intensity_of_jumps)
+            target = {}
+            for st in itertools.product(range(-half, half + 1), repeat=2):
+                if st == (0, 0):
+                    continue
+                c = o + st
+                v = grid[c]
+                a = grid.middle(grid.left_point(c), v)
+                b = grid.middle(v, grid.right_point(c))
+                target[st] = Fr(float(proc.model.mass(a, b))) / Fr(lam)
+            if abs(sum(target.values()) - 1) > tol:
+                res.notes.append(f"2-d chain {copula_name} {n}x{n}: cell masses / intensity sum to {float(sum(target.values()))} (C01/C12 matter); law compared as is")
+
+            if method == SM.INVERSION:
+                one = lambda u, s=s: tuple(int(x) for x in s.sample_with_u(u))
+            else:
+                one = lambda u, s=s: tuple(int(x) for x in s.sample_with_us(np.array([u], dtype=float))[0])
+
+            def check_state(st, u, extra=None):
+                if st == (0, 0) or st not in target:
+                    viol(f"{name} through the factory returns the origin or a state outside the grid", u=u, got=list(st), **ctx, **(extra or {}))
+                elif target[st] == 0 and u == 0.0:
+                    viol(f"{name}: the uniform 0.0 is sent to a state of probability zero", finding="F-C02-6", u=u, got=list(st), **ctx)
+                elif target[st] == 0:
+                    viol(f"{name} through the factory returns a zero-probability state", u=u, got=list(st), **ctx, **(extra or {}))
+
+            # batch sample() against the single-uniform entry point
+            us = [rng.randrange(0, 1 << 30) / (1 << 30) for _ in range(12)] + [0.0, ulp_down(1.0)]
+            orig_u = np.random.uniform
+            np.random.uniform = lambda low=0.0, high=1.0, size=None: np.array(us[: size], dtype=float) * (high - low) + low
+            try:
+                batch = [tuple(int(x) for x in v) for v in s.sample(size=len(us))]
+            finally:
+                np.random.uniform = orig_u
+            fresh, _ = build_chain_2d(h, half, masses1, masses2, copula_name, method)
+            fs = fresh.sampling
+            fone = (lambda u: tuple(int(x) for x in fs.sample_with_u(u))) if method == SM.INVERSION else \
+                (lambda u: tuple(int(x) for x in fs.sample_with_us(np.array([u], dtype=float))[0]))
+            for u, st in zip(us, batch):
+                res.count(("factory-2d", name, copula_name, h, half, u), kind=f"factory {name} sample")
+                check_state(st, u)
+                if fone(u) != st:
+                    viol(f"{name}: batch sample() and the single-uniform entry point disagree for the same uniform", u=u, batch=list(st), single=list(fone(u)), **ctx)
+
+            # law
+            one(ulp_down(1.0))
+            hints = [float(c) for c in getattr(s, "_cumulative_probabilities", [])] + [float(c) for c in getattr(s, "_cum_ps", [])]
+            lengths, _ = integrate_step_function(one, hints=hints, n0=256)
+            res.count(("law-2d", name, copula_name, h, half, tuple(masses1), tuple(masses2)), kind=f"oracle-law-{name}")
+            for st, pr in target.items():
+                if abs(lengths.get(st, Fr(0)) - pr) > tol:
+                    viol(f"{name} through the factory: total length of the uniforms sent to a state differs from mass(cell)/intensity",
+                         state=list(st), length=float(lengths.get(st, Fr(0))), target=float(pr), **ctx)
+                    break
+            extra = [st for st, ln in lengths.items() if st not in target or (target[st] == 0 and ln > tol)]
+            if extra:
+                viol(f"{name} through the factory: origin / out-of-grid / zero-probability state has positive length", state=list(extra[0]), **ctx)
+
+            # histories: two orders (INVERSION: also tiny _max_storage)
+            for M in ([None, 1, 2, 3, 5] if method == SM.INVERSION else [None]):
+                seq = [rng.randrange(0, 1 << 30) / (1 << 30) for _ in range(rng.choice([3, 10, 30]))]
+                outs = []
+                for order in (list(range(len(seq))), rng.sample(range(len(seq)), len(seq))):
+                    p2, _ = build_chain_2d(h, half, masses1, masses2, copula_name, method)
+                    s2 = p2.sampling
+                    if M is not None:
+                        s2._max_storage = M
+                    f2 = (lambda u: tuple(int(x) for x in s2.sample_with_u(u))) if method == SM.INVERSION else \
+                        (lambda u: tuple(int(x) for x in s2.sample_with_us(np.array([u], dtype=float))[0]))
+                    got = {}
+                    for i in order:
+                        got[i] = f2(seq[i])
+                        res.count(("hist-2d", name, copula_name, h, half, M, seq[i], len(got)), kind=f"{name} sequence")
+                        check_state(got[i], seq[i], {"max_storage": M})
+                    outs.append(got)
+                res.bump("inversion2d_max_storage" if method == SM.INVERSION else "bstadapted2d_sequences", M)
+                diff = [i for i in range(len(seq)) if outs[0][i] != outs[1][i]]
+                if diff:
+                    i = diff[0]
+                    viol(f"{name}: the state returned for a uniform depends on the earlier draws", max_storage=M, sequence=seq, index=i,
+                         first=list(outs[0][i]), second=list(outs[1][i]), **ctx)
+                ref = {i: one(seq[i]) for i in range(len(seq))}
+                bad = [i for i in range(len(seq)) if outs[0][i] != ref[i]]
+                if bad and M is not None:
+                    i = bad[0]
+                    viol(f"{name}: with a small _max_storage the state returned differs from the one returned with the default storage",
+                         finding="F-C02-7", max_storage=M, u=seq[i], got=list(outs[0][i]), default_storage=list(ref[i]), **ctx)
 
 
 # ----------------------------------------------------------------------------- Coq header (check functions)
